@@ -19,7 +19,14 @@ fn build_doc(table: &Table, crlf: bool, comments: bool) -> Doc {
 /// `spread`: every token of an assignment on a line of its own, so that an error deep inside an assignment lies many lines
 /// below the line the assignment starts on
 fn build_doc_layout(table: &Table, crlf: bool, comments: bool, spread: bool) -> Doc {
+    build_doc_indented(table, crlf, comments, spread, false)
+}
+
+/// `indent`: the module body, END included, is indented by two spaces (as inside an asn1! invocation): no line after
+/// the header starts in column 1
+fn build_doc_indented(table: &Table, crlf: bool, comments: bool, spread: bool, indent: bool) -> Doc {
     let nl = if crlf { "\r\n" } else { "\n" };
+    let ind = if indent { "  " } else { "" };
     let mut text = String::new();
     let mut spans = vec![];
     for m in 1..=table.mods.tagdef.len() {
@@ -42,6 +49,7 @@ fn build_doc_layout(table: &Table, crlf: bool, comments: bool, spread: bool) -> 
                 // continuation lines are indented, as in hand-written modules
                 t = toks.iter().map(|k| &t[k.start..k.end]).collect::<Vec<_>>().join(&format!("{nl}      "));
             }
+            text.push_str(ind);
             let start = text.len();
             text.push_str(&t);
             spans.push((start, text.len()));
@@ -50,6 +58,7 @@ fn build_doc_layout(table: &Table, crlf: bool, comments: bool, spread: bool) -> 
             }
             text.push_str(nl);
         }
+        text.push_str(ind);
         text.push_str("END");
         text.push_str(nl);
     }
@@ -93,7 +102,9 @@ fn marked_line(ctx: &str) -> i64 {
 fn one(ci: usize, plan: &Value, di: usize, table: &Table, dir: &str) -> Value {
     let crlf = plan["crlf"].as_bool().unwrap();
     let file = plan["file"].as_bool().unwrap();
-    let doc = build_doc_layout(table, crlf, (ci + di) % 2 == 0, (ci + di) % 3 == 2);
+    // every fifth document has its whole body indented
+    let doc = build_doc_indented(table, crlf, (ci + di) % 2 == 0, (ci + di) % 3 == 2, (ci + di) % 5 == 4);
+    let _ = build_doc_layout;
     let mut a = plan["a"].as_u64().unwrap() as usize % doc.spans.len();
     let anchor = plan["anchor"].as_str().unwrap_or("nth");
     if anchor == "after_default" {
